@@ -1,11 +1,16 @@
 from functools import wraps
 
 
-__all__ = ['memoize', 'singleton', 'memoize_attr_check']
+__all__ = ['memoize', 'singleton', 'memoize_attr_check', 'clear_all_caches']
 
 
 def _make_key(args, kwargs):
     return args, frozenset(kwargs.items())
+
+
+# All the functions decorated with memoize, so that all the caches can be
+# cleared at once when results may have changed for any argument.
+_MEMOIZED_FUNCTIONS = []
 
 
 def memoize(func):
@@ -34,7 +39,16 @@ def memoize(func):
             return func(*args, **kwargs)
 
     wrapper.__memoize_cache = memo
+    _MEMOIZED_FUNCTIONS.append(wrapper)
     return wrapper
+
+
+def clear_all_caches():
+    """
+    Clear the caches of all the functions decorated by memoize
+    """
+    for func in _MEMOIZED_FUNCTIONS:
+        func.__memoize_cache.clear()
 
 
 def clear_cache(func):
